@@ -28,7 +28,7 @@ def apply_step(w, program, st, **kw):
     elif op == 'mk':
         w.ext_mkdir(st[1])
     elif op == 'touch':
-        w.ext_touch(st[1])
+        w.ext_touch(st[1], st[2] if len(st) > 2 else None)
     elif op == 'recreate':
         w.ext_recreate(st[1])
     elif op == 'same_stamp_rewrite':
